@@ -6333,7 +6333,8 @@ get_req_headers (struct MHD_Connection *c, bool process_footers)
        */
       const char *last_elmnt_end;
       size_t shift_back_size;
-      if (NULL != c->rq.headers_received_tail)
+      if ( (NULL != c->rq.headers_received_tail) &&
+           (MHD_HEADER_KIND == c->rq.headers_received_tail->kind) )
         last_elmnt_end =
           c->rq.headers_received_tail->value
           + c->rq.headers_received_tail->value_size;
